@@ -3,7 +3,9 @@
   * `sd.nd.ser <yof>` / `sd.nt.ser <secs> <frac>` / `sd.ndt.ser <yof> <secs> <frac>` / `sd.dt.ser <yof> <secs>
     <frac> <off>`: the text `Serialize` hands to `collect_str` (`x<hex>` | `err` | `panic`);
   * `sd.nd.de x<text>` / `sd.nt.de` / `sd.ndt.de` / `sd.dt.de fixed|utc x<text>`: what `visit_str` answers
-    (`ok <value>` | `err` | `panic`). -/
+    (`ok <value>` | `err` | `panic`);
+  * `sd.dt.de local <off> x<text>`: `Deserialize for DateTime<Local>` in a process whose time zone has the
+    fixed offset `<off>` (seconds east). -/
 import Chrono.Drv.Util
 import Chrono.Model.SerdeTs
 import Chrono.Model.SerdeStr
@@ -98,6 +100,10 @@ def handle (op : String) (args : List String) : Option String :=
       | none => bad)
   | "sd.dt.ser", [y, s, f, o] => some (match dt? y s f, int? o with
       | some dt, some o => showW (DateTimeStr.serialize ⟨dt, o⟩)
+      | _, _ => bad)
+  | "sd.dt.de", ["local", o, x] => some (match int? o, hexDecode x with
+      | some o, some b =>
+        showRes (showSR fun (z : Zoned) => s!"{showDT z.utc} {z.off}") (DateTimeStr.deserialize_local (fun _ => o) b)
       | _, _ => bad)
   | "sd.dt.de", [t, x] => some (match hexDecode x with
       | some b =>
